@@ -323,6 +323,12 @@ fn mon_c04(snap: &Snap, workers: usize, limit: usize, armed: &mut BTreeMap<Strin
                     bit_clear.insert(w, avail & (1u128 << w) == 0);
                 }
             }
+            Rec::DispatchFailed { .. } => {
+                // a dead worker was discovered in the middle of a turn: its handle is gone, "every
+                // worker is available" does not hold until a later turn boundary shows all bits again
+                all_avail = false;
+                window.clear();
+            }
             Rec::Dispatch { conn: Some(c), worker, .. } => {
                 if bit_clear.get(worker) == Some(&true) && ip.count(*worker) > limit {
                     // dispatch to a worker marked unavailable beyond its limit is C02's finding
@@ -765,7 +771,13 @@ fn mon_c08(snap: &Snap, workers: usize, limit: usize, armed: &mut BTreeMap<Strin
                 }
                 Rec::Dispatch { conn, worker, .. } if dying.contains(worker) => {
                     // is it still the dead one (no replacement handle for that idx has been stored since)?
-                    let replaced = snap.log[..i].iter().rev().take_while(|(_, _, r)| !matches!(r, Rec::WorkerDying { .. })).any(|(_, _, r)| matches!(r, Rec::AcceptQueueBefore(q) if q.iter().any(|x| x == &format!("Worker({worker})"))));
+                    // (look back to the most recent death of a worker with *this* index only)
+                    let is_this_idx = |r: &Rec| matches!(r, Rec::WorkerDying { slot } if snap.workers.get(*slot).map(|w| w.idx) == Some(*worker));
+                    let handle_stored = |r: &Rec| match r {
+                        Rec::AcceptQueueBefore(q) | Rec::AcceptProcessed(q) => q.iter().any(|x| x == &format!("Worker({worker})")),
+                        _ => false,
+                    };
+                    let replaced = snap.log[..i].iter().rev().take_while(|(_, _, r)| !is_this_idx(r)).any(|(_, _, r)| handle_stored(r));
                     let failed = matches!(snap.log.get(i + 1).map(|x| &x.2), Some(Rec::DispatchFailed { .. }));
                     if !failed && !replaced {
                         out.push(("C08:dead-worker-accepted-a-connection".to_string(), format!("step {}: connection {:?} was sent to worker {worker} after that worker had died, and the send succeeded (its connection channel was still open), so the connection is lost instead of being re-routed", snap.log[i].0, conn)));
